@@ -135,22 +135,51 @@ def Tok.bytes : Tok → List Nat
 
 def tokBytes (ts : List Tok) : List Nat := ts.flatMap Tok.bytes
 
-/-- the `Vec<(usize, u8)>` stored under key `c` after the column loop of band `b`: every column whose
-six pixels contain `c`, in ascending column order, with the code of `c`'s bits plus 63.
-(`entry(color).or_default().push(..)` appends per key in push order whatever the order in which the
-`HashSet` of the column's colours is walked.) -/
+/-- `sixel_lines.entry(color).or_default().push(item)`; the map is kept as an association list in order of
+first insertion (the order is never used: the iteration order is the parameter `order`) -/
+def pushItem : List (Nat × List (Nat × Nat)) → Nat → Nat × Nat → List (Nat × List (Nat × Nat))
+  | [], c, it => [(c, [it])]
+  | (k, v) :: rest, c, it => if k = c then (k, v ++ [it]) :: rest else (k, v) :: pushItem rest c it
+
+/-- `unique_colors.clear(); unique_colors.extend(sixel.iter().copied())`: the column's colours, each once
+(a `HashSet`; the order in which it is walked is irrelevant because every colour pushes to its own vector) -/
+def uniqueColours : List Nat → List Nat
+  | [] => []
+  | a :: l => if a ∈ l then uniqueColours l else a :: uniqueColours l
+
+/-- body of `for col in 0..img.width()` -/
+def collectColumn (q : QImg) (b : Nat) (m : List (Nat × List (Nat × Nat))) (col : Nat) :
+    List (Nat × List (Nat × Nat)) :=
+  let six := sixelAt q b col
+  (uniqueColours six).foldl (fun m c => pushItem m c (col, codeOf c six + 63)) m
+
+/-- `sixel_lines` after the column loop of band `b` -/
+def collectBand (q : QImg) (b : Nat) : List (Nat × List (Nat × Nat)) :=
+  (List.range q.w).foldl (collectColumn q b) []
+
+/-- the `Vec<(usize, u8)>` stored under key `c` -/
+def bandLine (q : QImg) (b c : Nat) : List (Nat × Nat) := ((collectBand q b).lookup c).getD []
+
+/-- what that vector is (`SurfProofs.Lemmas.SixelEnc.bandLine_eq`): every column whose six pixels contain
+`c`, in ascending column order, with the code of `c`'s bits plus 63 -/
 def lineItems (q : QImg) (b c : Nat) : List (Nat × Nat) :=
   (List.range q.w).filterMap fun col =>
     let six := sixelAt q b col
     if c ∈ six then some (col, codeOf c six + 63) else none
 
-/-- `#c` + line + `$` -/
-def colorLine (q : QImg) (b c : Nat) : List Nat :=
-  [35] ++ decimal c ++ tokBytes (encodeLine 0 (lineItems q b c)) ++ [36]
+/-- `#c` + line + `$` for the vector `items` stored under `c` -/
+def colorLineOf (c : Nat) (items : List (Nat × Nat)) : List Nat :=
+  [35] ++ decimal c ++ tokBytes (encodeLine 0 items) ++ [36]
 
-/-- one band: the lines of the colours in hash-map order, then `-` -/
+def colorLine (q : QImg) (b c : Nat) : List Nat := colorLineOf c (bandLine q b c)
+
+/-- one band: fill the map, then the lines of the colours in hash-map order, then `-` -/
 def encodeBand (q : QImg) (b : Nat) (colours : List Nat) : List Nat :=
-  colours.flatMap (colorLine q b) ++ [45]
+  let m := collectBand q b
+  colours.flatMap (fun c => colorLineOf c ((m.lookup c).getD [])) ++ [45]
+
+theorem encodeBand_def (q : QImg) (b : Nat) (colours : List Nat) :
+    encodeBand q b colours = colours.flatMap (colorLine q b) ++ [45] := rfl
 
 /-- `for row in (0..qimg.height()).step_by(6)`: band indices `0 .. ceil(h / 6)` -/
 def bandCount (h : Nat) : Nat := (h + 5) / 6
